@@ -165,17 +165,21 @@ func (c *memConn) Write(p []byte) (int, error) {
 	return len(p), nil
 }
 
-// deliverLocked appends to the peer's inbox and to this end's tap. c.mu is held.
+// deliverLocked records p in this end's tap and hands it to the peer. c.mu is held on entry and on
+// return, but released while the peer's mutex is taken (the two ends lock each other's mutex when both
+// directions write at once: never hold both).
 func (c *memConn) deliverLocked(p []byte) {
 	c.tap = append(c.tap, p...)
 	c.writeCalls = append(c.writeCalls, append([]byte(nil), p...))
 	peer := c.peer
+	c.mu.Unlock()
 	peer.mu.Lock()
 	if !peer.closed {
 		peer.inbox = append(peer.inbox, p...)
 	}
 	peer.cond.Broadcast()
 	peer.mu.Unlock()
+	c.mu.Lock()
 }
 
 func (c *memConn) Close() error {
